@@ -256,7 +256,12 @@ def run_one(scenario, prefix):
     return r
 
 
-def _explore_scenario(acc, arg):
+def _key(arg):
+    return '+'.join(arg[0][0]) + ' || ' + '+'.join(arg[0][1]) + f' /bound={arg[1]}'
+
+
+def _explore_scenario(acc, job):
+    arg, start, expand_only = job
     scenario, bound, cap = arg
     name = '+'.join(scenario[0]) + ' || ' + '+'.join(scenario[1])
     outcomes = set()
@@ -281,19 +286,22 @@ def _explore_scenario(acc, arg):
             if kind not in found:
                 found[kind] = (detail, choices, sched.preemptions(trace))
 
-    n, capped = sched.explore(one, bound, max_executions=cap, on_execution=on_exec, weight=_weight)
+    if expand_only:
+        n, kids = sched.explore(one, bound, on_execution=on_exec, weight=_weight, start=[[]], depth_limit=0)
+        acc.emit((_key(arg), kids))
+    else:
+        n, capped = sched.explore(one, bound, max_executions=cap, on_execution=on_exec, weight=_weight, start=start)
+        if capped:
+            acc.cap(f'scenario[{name}]', f'a subtree was stopped after {n} schedules (bound {bound} not completed)')
+    acc.add(f'schedules[{name}]', n)
     for o in outcomes:
         acc.nontrivial(h64((name, o)))
-    acc.note(f'scenario[{name}]', {'schedules': n, 'distinct_outcomes': len(outcomes), 'preemption_bound': bound,
-                                   'capped': capped})
-    if capped:
-        acc.cap(f'scenario[{name}]', f'stopped after {n} schedules (bound {bound} not completed)')
     for kind, (detail, choices, pre) in found.items():
         acc.violation(f'{kind}/{"+".join(scenario[1])}', {'scenario': name, 'detail': detail, 'schedule': choices,
                                                           'preemptions': pre},
                       case={'scenario': [list(scenario[0]), list(scenario[1])], 'schedule': choices})
-    if len(acc.samples) < 3:
-        acc.sample({'scenario': name, 'schedules': n, 'outcomes': sorted(map(str, outcomes))[:4]})
+    if len(acc.samples) < 3 and not expand_only:
+        acc.sample({'scenario': name, 'schedules_in_this_subtree_group': n, 'outcomes': sorted(map(str, outcomes))[:4]})
 
 
 def run(ctx):
@@ -304,9 +312,10 @@ def run(ctx):
                 'transactions); scheduling points = acquire/release of every lock created by the library (mdib lock, transaction '
                 'lock, table locks, transaction-id lock, subscription table and client pool locks); all schedules with at most %d '
                 'preemptions. distinct_nontrivial = distinct (scenario, observed response versions + verdict) outcomes' % bound)
-    jobs = [(s, bound, 4000 if ctx.quick else 60000) for s in SCENARIOS]
-    jobs += [(s, 1 if ctx.quick else 2, 3000 if ctx.quick else 60000) for s in SCENARIOS_2]
-    ctx.pmap(_explore_scenario, ctx.rotate(jobs), chunksize=1)
+    # caps are per subtree group (sched.run_partitioned)
+    jobs = [(s, bound, 4000 if ctx.quick else 2500) for s in SCENARIOS]
+    jobs += [(s, 1 if ctx.quick else 2, 3000 if ctx.quick else 2500) for s in SCENARIOS_2]
+    sched.run_partitioned(ctx, _explore_scenario, ctx.rotate(jobs), _key, group=8)
     _determinism_selfcheck(ctx)
     ctx.assumptions.append('races between statements that are not separated by a lock operation are outside the granularity '
                            'stated by the property (there is no data-race detector for Python in this image)')
